@@ -2359,17 +2359,12 @@ Qed.
 
 (* ---- signature bodies ---- *)
 
-Lemma be16_split : forall n, n < 65536 -> (n / 256) mod 256 * 256 + n mod 256 = n.
-Proof.
-  intros n H. rewrite (N.mod_small (n / 256)) by (apply N.div_lt_upper_bound; lia).
-  pose proof (N.div_mod n 256). lia.
-Qed.
 
 Record gsig_facts (s : gsig) : Prop := mk_gsig_facts {
   sf_hash : hash_known (gs_hash s) = true;
   sf_tag : length (gs_hashtag s) = 2%nat;
   sf_mpis : exists k, sig_mpis (gs_algo s) = Some k /\ length (gs_mpis s) = k;
-  sf_mpilen : forallb (fun m => lenN m <? 8192) (gs_mpis s) = true;
+  sf_mpilen : forallb mpib_ok (gs_mpis s) = true;
   sf_form : pform_ok (gs_form s) (lenN (gsig_body s)) = true;
   sf_version : if gs_version s <? 4 then
       2 <= gs_version s /\ sig3_algo_ok (gs_algo s) = true /\ gs_issuer s < 2 ^ 64 /\ gs_created s < 2 ^ 32
@@ -2395,10 +2390,33 @@ Proof.
       repeat split; try assumption; lia.
 Qed.
 
+Lemma be16_split : forall n, n < 65536 -> (n / 256) mod 256 * 256 + n mod 256 = n.
+Proof.
+  intros n H. rewrite (N.mod_small (n / 256)) by (apply N.div_lt_upper_bound; lia).
+  pose proof (N.div_mod n 256). lia.
+Qed.
+
+Lemma read_mpi_encb : forall m rest, mpib_ok m = true -> read_mpi (enc_mpib m ++ rest) = Ok rest.
+Proof.
+  intros [b m] rest H. unfold mpib_ok in H. cbn [fst snd] in H. apply andb_prop in H as [Hb Hl].
+  unfold read_mpi, enc_mpib. cbn [fst snd]. rewrite N_to_be_2.
+  cbn [app]. unfold need at 1. cbn [length Nat.ltb Nat.leb firstn skipn bind nth].
+  rewrite be16_split by lia. apply N.eqb_eq in Hl. rewrite <- Hl, to_nat_lenN, need_app by reflexivity. reflexivity.
+Qed.
+
+Lemma read_mpis_encb : forall mpis rest, forallb mpib_ok mpis = true ->
+  read_mpis (length mpis) (flat_map enc_mpib mpis ++ rest) = Ok tt.
+Proof.
+  induction mpis as [|m r IH]; intros rest H; [reflexivity|].
+  cbn [forallb] in H. apply andb_prop in H as [Hm Hr].
+  cbn [length read_mpis flat_map]. rewrite <- app_assoc.
+  rewrite read_mpi_encb by exact Hm. cbn [bind]. apply IH. exact Hr.
+Qed.
+
 Lemma parse_sig3_body : forall v t a h created issuer h1 h2 mpis k,
   2 <= v -> v < 4 -> sig3_algo_ok a = true -> hash_known h = true -> sig_mpis a = Some k -> length mpis = k ->
-  forallb (fun m => lenN m <? 8192) mpis = true -> issuer < 2 ^ 64 ->
-  parse_sig3 ([v; 5; t] ++ N_to_be 4 created ++ N_to_be 8 issuer ++ [a; h] ++ [h1; h2] ++ flat_map enc_mpi mpis)
+  forallb mpib_ok mpis = true -> issuer < 2 ^ 64 ->
+  parse_sig3 ([v; 5; t] ++ N_to_be 4 created ++ N_to_be 8 issuer ++ [a; h] ++ [h1; h2] ++ flat_map enc_mpib mpis)
   = Ok (PSig3 a h issuer).
 Proof.
   intros v t a h created issuer h1 h2 mpis k Hv2 Hv4 Ha Hh Hk Hlen Hm Hi.
@@ -2417,18 +2435,18 @@ Proof.
   unfold need at 1. cbn [length Nat.ltb Nat.leb firstn skipn bind nth].
   rewrite Ha, Hh. cbn [negb].
   unfold need at 1. cbn [length Nat.ltb Nat.leb firstn skipn bind].
-  rewrite Hk. subst k. rewrite <- (app_nil_r (flat_map enc_mpi mpis)).
-  rewrite read_mpis_enc by exact Hm. rewrite Hiss. reflexivity.
+  rewrite Hk. subst k. rewrite <- (app_nil_r (flat_map enc_mpib mpis)).
+  rewrite read_mpis_encb by exact Hm. rewrite Hiss. reflexivity.
 Qed.
 
 Lemma parse_sig4_body : forall t a h hashed unhashed h1 h2 mpis k,
   sig4_algo_ok a = true -> hash_known h = true -> sig_mpis a = Some k -> length mpis = k ->
-  forallb (fun m => lenN m <? 8192) mpis = true ->
+  forallb mpib_ok mpis = true ->
   forallb (sub_ok true) hashed = true -> forallb (sub_ok false) unhashed = true ->
   existsb (fun sp => sb_type sp mod 128 =? 2) hashed = true ->
   lenN (enc_subs hashed) < 65536 -> lenN (enc_subs unhashed) < 65536 ->
   let body := [4; t; a; h] ++ N_to_be 2 (lenN (enc_subs hashed)) ++ enc_subs hashed
-              ++ N_to_be 2 (lenN (enc_subs unhashed)) ++ enc_subs unhashed ++ [h1; h2] ++ flat_map enc_mpi mpis in
+              ++ N_to_be 2 (lenN (enc_subs unhashed)) ++ enc_subs unhashed ++ [h1; h2] ++ flat_map enc_mpib mpis in
   parse_sig4 (length body) false body = Ok (PSig4 t a h (fold_left sub_issuer (hashed ++ unhashed) None)).
 Proof.
   intros t a h hashed unhashed h1 h2 mpis k Ha Hh Hk Hlen Hm Hsh Hsu Hct HlH HlU body. subst body.
@@ -2443,8 +2461,8 @@ Proof.
   rewrite need_app by reflexivity. cbn [bind].
   rewrite parse_subs_enc; [|exact Hsu|rewrite !app_length; cbn [length]; rewrite !app_length; lia]. cbn [bind].
   unfold need at 1. cbn [length Nat.ltb Nat.leb firstn skipn bind].
-  rewrite Hk. subst k. rewrite <- (app_nil_r (flat_map enc_mpi mpis)).
-  rewrite read_mpis_enc by exact Hm. cbn [bind].
+  rewrite Hk. subst k. rewrite <- (app_nil_r (flat_map enc_mpib mpis)).
+  rewrite read_mpis_encb by exact Hm. cbn [bind].
   rewrite !sub_step_issuer. cbn [ss_issuer]. rewrite fold_left_app. reflexivity.
 Qed.
 
@@ -2462,8 +2480,8 @@ Proof.
   destruct (gs_version s <? 4) eqn:E4.
   - destruct Hv as (H2 & Ha & Hi & Hc).
     cbn [app]. rewrite E4.
-    change (gs_version s :: 5 :: gs_sigtype s :: (N_to_be 4 (gs_created s) ++ N_to_be 8 (gs_issuer s) ++ [gs_algo s; gs_hash s]) ++ [h1; h2] ++ flat_map enc_mpi (gs_mpis s))
-      with (([gs_version s; 5; gs_sigtype s] ++ N_to_be 4 (gs_created s) ++ N_to_be 8 (gs_issuer s) ++ [gs_algo s; gs_hash s]) ++ [h1; h2] ++ flat_map enc_mpi (gs_mpis s)).
+    change (gs_version s :: 5 :: gs_sigtype s :: (N_to_be 4 (gs_created s) ++ N_to_be 8 (gs_issuer s) ++ [gs_algo s; gs_hash s]) ++ [h1; h2] ++ flat_map enc_mpib (gs_mpis s))
+      with (([gs_version s; 5; gs_sigtype s] ++ N_to_be 4 (gs_created s) ++ N_to_be 8 (gs_issuer s) ++ [gs_algo s; gs_hash s]) ++ [h1; h2] ++ flat_map enc_mpib (gs_mpis s)).
     rewrite <- !app_assoc.
     apply (parse_sig3_body _ _ _ _ _ _ _ _ _ k); try assumption; try lia. apply (sf_hash s F). apply (sf_mpilen s F).
   - destruct Hv as (H4 & Ha & Hsh & Hsu & Hct & HlH & HlU).
@@ -2543,7 +2561,7 @@ Qed.
 
 (* a version 3 DSA/SHA-1 packet with an old-format two-octet length *)
 Definition ex_gsig_v3 : gsig :=
-  mkgsig (FOld 1) 3 0 17 2 1700000000 207 [] [] [171; 205] [[1; 2]; [3]].
+  mkgsig (FOld 1) 3 0 17 2 1700000000 207 [] [] [171; 205] [(9, [1; 2]); (2, [3])].
 (* a version 4 EdDSA/SHA-512 packet cut into partial body lengths 16 + 8 + a two-octet final length; issuer
    fingerprint (33) and issuer in the hashed area, a second issuer in the unhashed area with a
    five-octet subpacket length, a critical creation time *)
@@ -2551,10 +2569,10 @@ Definition ex_gsig_v4 : gsig :=
   mkgsig (FPartial [4; 3] 2) 4 0 22 10 0 0
     [mksub 1 33 (4 :: repeat 170 20); mksub 1 130 [101; 83; 241; 0]; mksub 1 16 [0; 0; 0; 0; 0; 0; 0; 1]]
     [mksub 5 16 [1; 35; 69; 103; 137; 171; 205; 239]; mksub 2 20 (repeat 7 200)]
-    [18; 52] [[9; 9; 9]; [8; 8]].
+    [18; 52] [(20, [9; 9; 9]); (16, [8; 8])].
 (* only an issuer fingerprint: no issuer key ID is stored *)
 Definition ex_gsig_fpr : gsig :=
-  mkgsig (FNew 5) 4 0 1 8 0 0 [mksub 1 2 [0; 0; 0; 1]; mksub 1 33 (4 :: repeat 187 20)] [] [0; 0] [[5]].
+  mkgsig (FNew 5) 4 0 1 8 0 0 [mksub 1 2 [0; 0; 0; 1]; mksub 1 33 (4 :: repeat 187 20)] [] [0; 0] [(3, [5])].
 
 Definition ex_sig_store : bytes :=
   gencode_sig ex_gsig_v3 ++ [255] ++ bs "00112233445566778899aabbccddeeff00112233" ++ [0]
